@@ -23,6 +23,7 @@ XADD = {v: d for v, d in isa.TABLE.items() if d["kind"] == "xadd"}
 
 def run(rep, tier):
     cx = Ctx(rep, "std")
+    rep.where_by_opcode = cx.opcode_where(cx.roles.interpreter())
     im = imodel.InterpModel(cx)
     jm = jitmodel.JitModel(cx)
     if not (im.ok and jm.ok):
